@@ -50,6 +50,7 @@ let limiter_core o f : string =
   let tbl = ref [] in
   let tainted = ref [] in
   let nband = ref 0 in
+  let len_amb = ref false in
   let dec = Buffer.create 64 in
   let hist = ref [] in
   List.iter (fun op ->
@@ -70,6 +71,15 @@ let limiter_core o f : string =
       t := !t + int_of_string dt;
       let e = EvGc (z_of_int !t) in
       hist := e :: !hist;
+      (* the collector's "has refilled completely" test (TokensAt(now) >= burst) within the band of an idle entry:
+         float64 may decide either way; the two outcomes differ by < band tokens (covered by the decision band),
+         only the number of entries may differ *)
+      List.iter (fun (_, b) ->
+        if lim_expired (z_of_int !t) b then begin
+          let last = min (int_of_z b.b_last) !t in
+          let x = int_of_z b.b_tok + int_of_z o.o_limit * (!t - last) in
+          if abs (x - int_of_z o.o_burst * 1000000000) < band then len_amb := true
+        end) !tbl;
       tbl := fst (lim_step o !tbl e);
       (* a collected entry is fresh again on both sides *)
       tainted := List.filter (fun k -> lim_lookup k !tbl <> None) !tainted
@@ -104,7 +114,8 @@ let limiter_core o f : string =
       | Some k -> if has_gc h then "spec=FAIL:window-bound-exceeded-after-gc:" ^ k else "spec=FAIL:window-bound-exceeded:" ^ k
     end in
   let d = Buffer.contents dec in
-  Printf.sprintf "dec=%s len=%d band=%d || %s" (if d = "" then "-" else d) (List.length !tbl) !nband spec
+  Printf.sprintf "dec=%s len=%s band=%d || %s" (if d = "" then "-" else d)
+    (if !len_amb then "?" else string_of_int (List.length !tbl)) !nband spec
 
 let run_limiter (parts : string list) : string =
   let f = fields parts in
